@@ -36,7 +36,7 @@ class PureFn:
                 self.fp_params[nm] = None
             self.params.append(nm)
         # function-pointer typedefs (bign_deep_i) are not visible in the spelling: detect by use
-        self.locals = set()
+        self.locals = set(self.params)      # parameters may be re-assigned (m = B_OF_W(m))
         self.tr = ExprTr(tree, fn.file, self.resolve)
         self.va = False
         self.calls = set()
@@ -138,6 +138,36 @@ class PureFn:
                 raise Unhandled("for-increment")
             bd = self.block(body)
             return [("for", iv, a, b, bd)]
+        if k == "SwitchStmt":
+            # switch (e) { case L: <stmts ending in return> ... default: <stmts ending in return> }
+            e = self.tr.expr(n["inner"][0])
+            body = n["inner"][1]
+            if body["kind"] != "CompoundStmt":
+                raise Unhandled("switch body")
+            arms, cur = [], None
+            for c in body.get("inner", []):
+                while c["kind"] in ("CaseStmt", "DefaultStmt"):
+                    if cur is not None and not self.has_ret(cur[1]):
+                        raise Unhandled("switch fall-through")
+                    if c["kind"] == "CaseStmt":
+                        lab = fold(self.tr.expr(c["inner"][0]))
+                        if lab[0] != "lit":
+                            raise Unhandled("case label")
+                        cur = (lab, [])
+                        c = c["inner"][-1]
+                    else:
+                        cur = (None, [])
+                        c = c["inner"][-1]
+                    arms.append(cur)
+                if cur is None:
+                    raise Unhandled("statement before first case")
+                cur[1].extend(self.block(c))
+            if not arms or arms[-1][0] is not None or any(not self.has_ret(a[1]) for a in arms):
+                raise Unhandled("switch without returning default as last arm")
+            out = arms[-1][1]
+            for lab, st in reversed(arms[:-1]):
+                out = [("if", ("cmp", "==", e, lab), st, out)]
+            return out
         if k == "CallExpr":
             callee = strip(n["inner"][0])
             nm = callee.get("referencedDecl", {}).get("name", "")
@@ -238,7 +268,7 @@ class PureFn:
         if s[0] == "if":
             if self.has_ret(s[2]) or self.has_ret(s[3]):
                 # early return: continue with `rest` in both arms
-                return (pad + "if %s then\n" % self.condE(s[1]) + self.render_stmts(s[2] + rest, ind + 1, tail) + "\n" +
+                return (pad + "if %s%s then\n" % ("h%d : " % ind if self.recursive else "", self.condE(s[1])) + self.render_stmts(s[2] + rest, ind + 1, tail) + "\n" +
                         pad + "else\n" + self.render_stmts(s[3] + rest, ind + 1, tail))
             vs = self.assigned(s[2]) + [v for v in self.assigned(s[3]) if v not in self.assigned(s[2])]
             if not vs:
@@ -297,8 +327,11 @@ class PureFn:
 
     pat = tuple
 
+    recursive = False
+
     def render(self):
         self.va_used = False
+        self.recursive = self.fn.key in RECURSION_MEASURES
         # detect function-pointer parameters by use
         for s in self.walk_exprs(self.stmts):
             self.find_fp(s)
@@ -311,7 +344,10 @@ class PureFn:
                 ps.append("(%s : Nat)" % lname(p))
         if self.fn.variadic:
             ps.append("(va : List Nat)")
-        return "def %s %s: Nat :=\n%s\n" % (lean_fn(self.fn.key), "".join(p + " " for p in ps), body)
+        tail = ""
+        if self.recursive:
+            tail = "termination_by %s\ndecreasing_by all_goals (simp_wf; omega)\n" % RECURSION_MEASURES[self.fn.key]
+        return "def %s %s: Nat :=\n%s\n%s" % (lean_fn(self.fn.key), "".join(p + " " for p in ps), body, tail)
 
     def init_locals(self):
         # C locals that are read before assignment do not occur in pure size functions;
@@ -343,6 +379,9 @@ class PureFn:
 
 
 FP_PARAMS = {}
+# directly recursive size functions: termination measure (checked by Lean, not trusted);
+# any other recursion is Unhandled
+RECURSION_MEASURES = {"ppMul_deep": "(n + m, n - m)"}
 
 
 def translate_all(tree):
@@ -400,6 +439,8 @@ def translate_all(tree):
             raise Unhandled("recursion through " + k)
         mark[k] = 1
         for c in sorted(trs[k].calls):
+            if c == k and k in RECURSION_MEASURES:
+                continue
             visit(c)
         mark[k] = 2
         order.append(k)
